@@ -91,7 +91,7 @@ func (e *Engine) havocBase(st *State, elem types.Type, base *smt.Term) {
 
 var intrinsicNames = map[string]bool{"vAssume": true, "vAssert": true, "vRequires": true, "vEnsures": true, "vModifies": true,
 	"vNondet": true, "vOld": true, "vForall": true, "vInvariant": true, "vBody": true, "vStep": true, "vCallCount": true,
-	"vCallArg": true, "vSameSlice": true, "vFresh": true, "vSeparate": true, "vJoined": true, "vSame": true, "VSeparate": true, "vDistinctBacking": true, "vHavocRange": true, "vCallAnon": true, "vMkTime": true, "vTimeNanos": true, "vCallAnonErr": true}
+	"vCallArg": true, "vSameSlice": true, "vFresh": true, "vSeparate": true, "vJoined": true, "vSame": true, "VSeparate": true, "vDistinctBacking": true, "vHavocRange": true, "vCallAnon": true, "vMkTime": true, "vTimeNanos": true, "vCallAnonErr": true, "vStringSeparate": true}
 
 func constString(v ssa.Value) string {
 	if c, ok := v.(*ssa.Const); ok && c.Value != nil && c.Value.Kind() == constant.String {
@@ -286,6 +286,9 @@ func (e *Engine) intrinsic(st *State, fn *ssa.Function, name string, args []Valu
 			acc = c.And(acc, c.Eq(args[0].L[k], args[1].L[k]))
 		}
 		return boolV(acc), st, true
+	case "vStringSeparate":
+		// vStringSeparate(s, b): the string's bytes do not live in the backing array of the byte slice
+		return boolV(c.Or(c.Ne(args[0].L[0], args[1].L[0]), c.Eq(args[0].L[0], e.k64(0)), c.Eq(args[0].L[2], e.k64(0)))), st, true
 	case "vSeparate", "VSeparate":
 		// vSeparate(a, b): the two slices/strings live in different backing arrays
 		return boolV(c.Or(c.Ne(args[0].L[0], args[1].L[0]), c.Eq(args[0].L[0], e.k64(0)))), st, true
@@ -353,7 +356,10 @@ func (e *Engine) intrinsicCallAnon(st *State, args []Value, pos token.Pos) (*Val
 		for _, fv := range target.FreeVars {
 			v, ok := byName[fv.Name()]
 			if !ok {
-				panic(unsupported("vCallAnon " + fname + ": no binding for captured variable " + fv.Name()))
+				// a captured variable the contract does not know about holds an arbitrary value (whatever the enclosing
+				// function left there): the obligations must hold for all of them
+				e.note("vCallAnon %s: captured variable %s is not bound by the contract: arbitrary", fname, fv.Name())
+				v = e.symbolic(fv.Type(), "captured_"+fv.Name())
 			}
 			ordered = append(ordered, v)
 		}
